@@ -10,7 +10,7 @@ const vPrintable = " !\"#$%&'()*+,-./0123456789:;<=>?@ABCDEFGHIJKLMNOPQRSTUVWXYZ
 
 // token-relevant alphabet: every byte class the lexer distinguishes, two word letters
 // (one of each case), a digit, a dot
-const vLexAlpha = " '\"`~^=!*+-/><&|()[],;aB1.\t\n"
+const vLexAlpha = " '\"`~^=!*+-/><&|()[],;aB1.\t\n\r"
 
 // reduced class alphabets for longer inputs: one representative per class
 const vLexAlpha11 = " '\"<=!&(,a1"
